@@ -53,6 +53,8 @@ type metricStore struct {
 // newMetricStore returns a new mStoreINTF.
 func newMetricStore() mStoreINTF {
 	var ms metricStore
+	// a new store is active: the gc after a metadata flush must not drop it before its first field is generated
+	ms.accessTime = fasttime.UnixMilliseconds()
 	return &ms
 }
 
